@@ -275,7 +275,13 @@ def instBw6 (p r : Nat) (kv : KV) : Option Inst :=
           | .ok pr => if pr.infinity then "inf"
                       else showCoeffs B0 pr.ellCoeffs1 ++ "/" ++ showCoeffs B0 pr.ellCoeffs2)
       | _, _ => none
-    some { family := "bw6", p := p, r := r, shape := sh, feExp := none,
+    -- generic hard part: `(u+1)·Φ₆(p)/r` (comment in `bw6/mod.rs`); BW6-761 override: `3(u³-u²+1)·Φ₆(p)/r`
+    -- (eprint 2020/351, Alg. 6); `u` the signed `X`
+    let u := valueInt xneg x
+    let c : Int := if hard == "761" then 3 * (u * u * u - u * u + 1) else u + 1
+    let pk := p ^ 6 - 1
+    some { family := "bw6", p := p, r := r, shape := sh,
+           feExp := if pk % r == 0 then some ((c % (r : Int)).toNat * (pk / r)) else none,
            model := engineModel Eng D6 C6 parsePt1 parsePt1 extra }
 
 def showMntG2 {G : Type} (D : FieldD (Fp p) G) (pr : MntG2Prepared G) : String :=
@@ -386,6 +392,13 @@ def testOp (I : Inst) (op : String) (args : List String) (impl : String) : Optio
       some (want (es.foldl (mulT I) (oneT I)))
   | "t_prep", [e] =>
     if e == "panic" || impl == "panic" then some ("any", "bad:panic") else some (e, vs impl e)
+  -- the same with an explicit cofactor `c` (signed): `FE(f) = f^((c mod r)·(p^k-1)/r)`
+  | "t_fepowc", [c, f] => do
+    let c ← parseInt? c
+    let f ← parseT I f
+    let k := I.shape.deg
+    if (I.p ^ k - 1) % I.r != 0 then some ("any", "bad:r-does-not-divide-p^k-1")
+    else some (want (powT I f ((c % (I.r : Int)).toNat * ((I.p ^ k - 1) / I.r))))
   | "t_fepow", [f] => do
     let f ← parseT I f
     match I.feExp with
@@ -403,7 +416,9 @@ def verdict (I : Inst) (op : String) (args : List String) (impl : String) : Opti
     some (isOutput I impl fun v =>
       if isInf a || isInf b then (if v == oneT I then "ok" else "bad:identity-not-preserved")
       else if v == oneT I then "bad:degenerate" else "ok")
-  | "multi", [_, _] => some (isOutput I impl fun _ => "ok")
+  | "multi", [as, bs] =>
+    if (splitList as).length != (splitList bs).length then some "note:lists-of-different-length"
+    else some (isOutput I impl fun _ => "ok")
   | "miller", [_, _] => some (if impl == "panic" then "bad:panic" else if (parseT I impl).isSome then "ok" else "bad:malformed")
   | "finalexp", [f] => do
     let f ← parseT I f
